@@ -32,4 +32,6 @@ json.dump({"id":"$ID","patch_applied":$applied==0,"demo_rc_clean":$rc_clean,"dem
 PY
 rm -f "$DEST/suite.xml" "$DEST/suite.log"
 cd /; git -C /repo worktree remove --force "$WT"
+# the repository's test suite leaves its temporary databases behind (gigabytes per run): remove the stale ones
+find /tmp -maxdepth 1 \( -name "tmp*" -o -name "pymp-*" \) -mmin +120 -exec rm -rf {} + 2>/dev/null
 cat "$DEST/confirm.json" | head -20
